@@ -56,3 +56,34 @@ Proof.
   destruct (parse_xsd 50 c07_schema []) as [[st root]| | |] eqn:E; try (vm_compute in E; discriminate).
   exists st, root. split; auto. vm_compute in E. inversion E; subst. vm_compute. reflexivity.
 Qed.
+
+(* parse_attribute on a declaration with a fixed value: the decision it returns offers exactly two branches -- the
+   attribute left out, a leaf marked valid exactly when use is not "required" (also when the value is fixed), and the
+   attribute present --, and the present branch has exactly two leaves: the fixed value marked valid and a different
+   value marked invalid; nothing that was in the graph before is touched.  For every handler `rec` for the children,
+   every declaration, every earlier graph. *)
+From Fences Require Import XmlFence XmlLinks Graph.
+Theorem C07_attribute_fixed_fence : forall rec e parsed p st st' super parsed',
+  xpaylen st -> ahas "fixed" (attrs_of e) = true ->
+  h_attribute rec e parsed p st = Ok (st', super, parsed') ->
+  let n := xlen st in let g := x_graph st' in
+  exists name fixed, aget (kw "name") (attrs_of e) = Some name /\ aget (kw "fixed") (attrs_of e) = Some fixed /\
+    super = n /\ xlen st' = n + 5 /\ xpaylen st' /\
+    kind_of g n = KDec false true /\ outs_of g n = [n + 1; n + 2] /\
+    kind_of g (n + 1) = KLeaf (negb (attr_required e)) /\ xpay st' (n + 1) = XPNone /\ outs_of g (n + 1) = [] /\
+    kind_of g (n + 2) = KDec false false /\ xpay st' (n + 2) = XPAttr name /\ outs_of g (n + 2) = [n + 3; n + 4] /\
+    kind_of g (n + 3) = KLeaf true /\ xpay st' (n + 3) = XPSet fixed /\
+    kind_of g (n + 4) = KLeaf false /\ xpay st' (n + 4) = XPSet (fixed ++ kw "_INVALID") /\
+    fixed ++ kw "_INVALID" <> fixed /\
+    (forall m, m < n -> kind_of g m = kind_of (x_graph st) m /\ outs_of g m = outs_of (x_graph st) m /\ xpay st' m = xpay st m).
+Proof. exact attribute_fixed_fence. Qed.
+Print Assumptions C07_attribute_fixed_fence.
+
+(* non-vacuity: a required attribute with a fixed value is accepted by the handler, and its omission is marked invalid *)
+Definition c07_attr : xml :=
+  XEl (kw "attribute") [(kw "name", kw "version"); (kw "use", kw "required"); (kw "fixed", kw "1.0")] [].
+Example C07_attribute_nonvacuous : exists st' parsed',
+  h_attribute (fun _ _ st => Ok (st, 0)) c07_attr (map fst (attrs_of c07_attr)) [] (mkXbst [] [] []) = Ok (st', 0, parsed') /\
+  xpaylen (mkXbst [] [] []) /\ ahas "fixed" (attrs_of c07_attr) = true /\
+  kind_of (x_graph st') 1 = KLeaf false /\ parsed' = [].
+Proof. eexists. eexists. split; [vm_compute; reflexivity|]. repeat split; vm_compute; reflexivity. Qed.
